@@ -303,6 +303,9 @@ def gen_hexital(rng, size, ha_ok=False, life_ok=False, programs=True, enc=None):
         lines.append("hsnap")
         if programs and rng.random() < 0.25:
             lines.append("hacc names")
+            # the read-only views of the façade: timeframes, get_candles(), candles(tf) (a held timeframe, an unknown one, none)
+            lines.append(rng.choice(["hacc timeframes", "hacc getcandles",
+                                     "hacc candles tf=" + rng.choice([m.get("tf") or "-" for m in members] + ["-", "T77", (htf or "-")]).upper()]))
             k = rng.random()
             tgt = "-" if rng.random() < 0.2 else rng.choice(member_names + ["EMA_3", "TR"])
             if k < 0.2:
